@@ -138,6 +138,64 @@ def renamefail_life(root: str, kind: str, ds, tables) -> None:
     os._exit(0)
 
 
+def threads_life(root: str, ds, tables) -> None:
+    """two threads share ONE Table object: thread A is suspended inside the write of an in-flight marker while
+    thread B runs a whole append through the same handle, then A continues - every commit must be as durable as
+    a single-threaded one"""
+    import threading
+
+    real_write = os.write
+    a_in_marker = threading.Event()
+    b_done = threading.Event()
+    state = {"armed": False, "fired": 0}
+    names = {}
+
+    def write(fd, data):
+        if state["armed"] and not state["fired"] and threading.current_thread() is names.get("A"):
+            try:
+                p = os.readlink(f"/proc/self/fd/{fd}")
+            except OSError:
+                p = ""
+            if ".inflight" in p:
+                state["fired"] = 1
+                real_write(2, b"MARK fault_fired\n")
+                a_in_marker.set()
+                b_done.wait(60)
+        return real_write(fd, data)
+
+    os.write = write
+    mark("create")
+    t = ds.create_table(root, schema=tables.std_schema())
+    mark("append")
+    t.append_records(tables.rows([1, 2]))
+    state["armed"] = True
+    mark("two_threads_append")
+
+    def a_body():
+        t.append_records(tables.rows([3, 4]))
+
+    def b_body():
+        a_in_marker.wait(60)
+        try:
+            t.append_records(tables.rows([5, 6]))
+        finally:
+            b_done.set()
+
+    ta = threading.Thread(target=a_body, name="A")
+    tb = threading.Thread(target=b_body, name="B")
+    names["A"] = ta
+    ta.start()
+    tb.start()
+    ta.join(120)
+    tb.join(120)
+    mark("faulted_append_ACKED")
+    state["armed"] = False
+    mark("append_after_fault")
+    ds.load_table(root).append_records(tables.rows([7]))
+    mark("end")
+    os._exit(0)
+
+
 def main() -> None:
     root = sys.argv[1]
     variant = sys.argv[2] if len(sys.argv) > 2 else "a"
@@ -151,6 +209,8 @@ def main() -> None:
         return fault_life(root, variant.split(":", 1)[1], ds, tables)
     if variant.startswith("shortwrite:"):
         return shortwrite_life(root, variant.split(":", 1)[1], ds, tables)
+    if variant == "threads":
+        return threads_life(root, ds, tables)
     if variant.startswith("renamefail:"):
         return renamefail_life(root, variant.split(":", 1)[1], ds, tables)
 
